@@ -150,6 +150,8 @@ func ghostTimerPrefix(kg uint16) []byte { return []byte{byte(kg >> 8), byte(kg),
 
 // alignSender decides, under the lock, whether a sender has to wait: exactly
 // the senders whose barrier for the open checkpoint has already arrived.
+// (blocking(f): f waits unconditionally on a channel - a receive that is only one alternative of a
+// select does not count: the waiter could return while the checkpoint is still being aligned.)
 //@ func checkpoint.alignSender
 //@   property C02
 //@   modifies nothing
@@ -158,11 +160,18 @@ func ghostTimerPrefix(kg uint16) []byte { return []byte{byte(kg >> 8), byte(kg),
 // HandleEvent reads the alignment state under the read lock and waits outside it.
 // Every event an operator accepts - keyed events, watermarks, barriers, source-complete - first
 // passes the alignment gate of its sender (alignSender); only the "not ready" rejection skips it.
+// It applies nothing itself: keyed events, watermarks, barriers and source-complete are all queued
+// for the event loop (o.events), which applies them one at a time - a barrier handled on the
+// caller's goroutine would take the DKV cut while the loop is still applying released events.
 //@ func Operator.HandleEvent
 //@   property C02
 //@   nosafety
 //@   requires req != nil
 //@   ensures called(alignSender) || called(NewError)
+//@   atcall handleCheckpointBarrier: false
+//@   atcall handleKeyedEvent: false
+//@   atcall handleWatermark: false
+//@   atcall handleSourceComplete: false
 
 // ---- table ownership (C09). The shared table may be deleted only if this
 // partition's range covers the table's whole range, or every neighbour answered
